@@ -54,6 +54,11 @@ trait Backend: Sized {
     fn storage(&self) -> &Self::S;
     async fn reopen(self, variant: u64) -> Self;
     async fn close(self);
+    /// The same comparison made by a process of its own that opens the database afresh (a real restart's view);
+    /// `None` where that is not done.
+    async fn fresh_process_view(&self, _n: u64, _to: &Value, _must: &Value, _may: &Value) -> Option<Vec<String>> {
+        None
+    }
 }
 
 struct Mem(MemStore);
@@ -116,26 +121,46 @@ impl Backend for Lmdb {
         Lmdb(LmdbStorage::open(&p).await.expect("open lmdb"), p)
     }
     fn storage(&self) -> &LmdbStorage { &self.0 }
-    async fn reopen(self, variant: u64) -> Self {
+    async fn reopen(self, _variant: u64) -> Self {
+        // A new datacake handle on the environment. heed keeps an environment open for the life of the process unless
+        // it is closed explicitly, and closing it while datacake-lmdb's background thread is still on its way out is
+        // unsafe (LMDB's thread-local reader slot is released at thread exit - observed as a SIGSEGV in
+        // mdb_env_reader_dest when this harness used to call `prepare_for_closing` here). So nothing is ever closed
+        // in-process; the view of a process that opens the files afresh is taken by `fresh_process_view`.
         let p = self.1.clone();
-        if variant % 2 == 0 {
-            // new datacake handle on the environment heed still has open
-            drop(self.0);
-        } else {
-            // a real close of the environment, then open
-            let env = self.0.handle().env().clone();
-            drop(self.0);
-            let _ = tokio::task::spawn_blocking(move || env.prepare_for_closing().wait()).await;
-        }
+        drop(self.0);
         Lmdb(LmdbStorage::open(&p).await.expect("reopen lmdb"), p)
     }
     async fn close(self) {
         let p = self.1.clone();
-        let env = self.0.handle().env().clone();
         drop(self.0);
-        let _ = tokio::task::spawn_blocking(move || env.prepare_for_closing().wait()).await;
+        // the environment stays open in this process (two descriptors, one 10 MiB mapping); its files can go
         let _ = std::fs::remove_dir_all(p);
     }
+    async fn fresh_process_view(&self, n: u64, to: &Value, must: &Value, may: &Value) -> Option<Vec<String>> {
+        let exe = std::env::current_exe().expect("own path");
+        let arg = json!({"path": self.1, "n": n, "to": to, "must": must, "may": may}).to_string();
+        let out = tokio::process::Command::new(exe).arg("verify-lmdb").arg(arg).output().await.expect("spawn verify-lmdb");
+        if !out.status.success() {
+            return Some(vec![format!("a fresh process could not open / read the environment: exit {:?}: {}",
+                                     out.status.code(), String::from_utf8_lossy(&out.stderr).lines().last().unwrap_or(""))]);
+        }
+        let why: Vec<String> = serde_json::from_slice(&out.stdout).expect("verify-lmdb output");
+        Some(why.into_iter().map(|w| format!("seen by a fresh process: {w}")).collect())
+    }
+}
+
+/// `h-ec verify-lmdb <json>`: opens the LMDB environment at `path` in this (fresh) process and compares what the
+/// Storage API returns with the model state; prints the list of mismatches as JSON.
+pub async fn verify_lmdb() {
+    let arg: Value = serde_json::from_str(&std::env::args().nth(2).expect("argument")).expect("json argument");
+    let path = PathBuf::from(arg["path"].as_str().unwrap());
+    let n = arg["n"].as_u64().unwrap();
+    let store = LmdbStorage::open(&path).await.expect("open lmdb");
+    let m = mapping(n);
+    let r = Reader { s: &store, m: &m };
+    let why = r.compare(n, &arg["to"], &arg["must"], &arg["may"]).await;
+    println!("{}", serde_json::to_string(&why).unwrap());
 }
 
 fn ks_name(n: u64, k: u64) -> String {
@@ -292,15 +317,16 @@ async fn apply_op<S: Storage>(s: &S, m: &Mapping, n: u64, op: &Value) -> Result<
     }
 }
 
-async fn run_backend<B: Backend>(edges: &[(Value, Value)], dir: &PathBuf, stride: u64, offset: u64) -> Summary {
+async fn run_backend<B: Backend>(edges: &[(Value, Value)], dir: &PathBuf, stride: u64, offset: u64, range: (u64, u64)) -> Summary {
     let mut sum = Summary::default();
     let mut db: Option<B> = None;
     let mut in_db = 0u64;
     let mut reopens = 0u64;
+    let mut fresh_views = 0u64;
     let mut by_kind: BTreeMap<String, u64> = BTreeMap::new();
     for (n, (from, e)) in edges.iter().enumerate() {
         let n = n as u64;
-        if n % stride != offset % stride {
+        if n % stride != offset % stride || n < range.0 || n >= range.1 {
             continue;
         }
         let kind = e["op"]["kind"].as_str().unwrap();
@@ -332,6 +358,12 @@ async fn run_backend<B: Backend>(edges: &[(Value, Value)], dir: &PathBuf, stride
             let r = Reader { s: db.as_ref().unwrap().storage(), m: &m };
             why = r.compare(n, &e["to"], &e["must"], &e["may"]).await;
         }
+        if why.is_empty() && kind == "reopen" {
+            if let Some(w) = db.as_ref().unwrap().fresh_process_view(n, &e["to"], &e["must"], &e["may"]).await {
+                fresh_views += 1;
+                why = w;
+            }
+        }
         if !why.is_empty() {
             sum.violation(json!({"property": "C17", "backend": B::NAME, "why": why, "from": from, "op": e["op"], "to": e["to"],
                                  "ids": m.ids, "stamps": [m.stamps[0].to_string(), m.stamps[1].to_string()],
@@ -346,6 +378,7 @@ async fn run_backend<B: Backend>(edges: &[(Value, Value)], dir: &PathBuf, stride
     }
     sum.set("backend", B::NAME);
     sum.set("reopens", reopens);
+    sum.set("fresh_process_views", fresh_views);
     sum.set("by_kind", json!(by_kind));
     sum
 }
@@ -359,6 +392,12 @@ pub async fn replay() {
     // replay every `stride`-th edge on the slow persistent backends (1 = all)
     let stride: u64 = arg_or("--persistent-stride", "1").parse().unwrap();
     let offset: u64 = arg_or("--offset", "0").parse().unwrap();
+    // a child of this command working on a slice of the edge indexes (LMDB: a process can hold about a thousand
+    // environments - one thread-local key each - and none is ever closed in-process, see Lmdb::reopen)
+    let range: Option<(u64, u64)> = vcommon::arg("--edge-range").map(|r| {
+        let mut it = r.split(':').map(|x| x.parse::<u64>().unwrap());
+        (it.next().unwrap(), it.next().unwrap())
+    });
     let _ = std::fs::remove_dir_all(&dir);
     std::fs::create_dir_all(&dir).expect("scratch dir");
 
@@ -372,17 +411,72 @@ pub async fn replay() {
         }
     });
     let edges = std::sync::Arc::new(edges);
+    let all_edges = (0u64, edges.len() as u64);
+    let whole = range.unwrap_or(all_edges);
+    // edge indexes one LMDB process may cover: 600 environments of EDGES_PER_DB edges each
+    let lmdb_span = 600 * Lmdb::EDGES_PER_DB * stride;
     let mut handles = vec![];
     for b in backends.split(',') {
         let edges = edges.clone();
         let dir = dir.clone();
         let b = b.to_string();
+        let input = input.clone();
         handles.push(tokio::spawn(async move {
             match b.as_str() {
-                "memstore" => run_backend::<Mem>(&edges, &dir, 1, 0).await,
-                "sqlite-memory" => run_backend::<SqlMem>(&edges, &dir, stride, offset).await,
-                "sqlite-file" => run_backend::<SqlFile>(&edges, &dir, stride, offset + 1).await,
-                "lmdb" => run_backend::<Lmdb>(&edges, &dir, stride, offset + 2).await,
+                "memstore" => run_backend::<Mem>(&edges, &dir, 1, 0, whole).await,
+                "sqlite-memory" => run_backend::<SqlMem>(&edges, &dir, stride, offset, whole).await,
+                "sqlite-file" => run_backend::<SqlFile>(&edges, &dir, stride, offset + 1, whole).await,
+                "lmdb" if range.is_some() || whole.1 - whole.0 <= lmdb_span => {
+                    run_backend::<Lmdb>(&edges, &dir, stride, offset + 2, whole).await
+                },
+                "lmdb" => {
+                    // one child process per slice, one after the other; their summaries are added up
+                    let exe = std::env::current_exe().expect("own path");
+                    let mut total = Summary::default();
+                    let (mut reopens, mut fresh) = (0u64, 0u64);
+                    let mut by_kind: BTreeMap<String, u64> = BTreeMap::new();
+                    let mut from = whole.0;
+                    let mut part = 0;
+                    while from < whole.1 {
+                        let to = (from + lmdb_span).min(whole.1);
+                        let out = dir.join(format!("lmdb-part-{part}.json"));
+                        let status = tokio::process::Command::new(&exe)
+                            .args(["replay-storage", "--input", &input, "--backends", "lmdb", "--persistent-stride", &stride.to_string(),
+                                   "--offset", &offset.to_string(), "--edge-range", &format!("{from}:{to}"),
+                                   "--dir", dir.join(format!("lmdb-part-{part}")).to_str().unwrap(), "--out", out.to_str().unwrap()])
+                            .status()
+                            .await
+                            .expect("spawn lmdb slice");
+                        if !status.success() {
+                            // the child ran the code under test: pass its fate on (the caller reruns / reports it)
+                            eprintln!("the LMDB slice {from}:{to} ended with {status:?}");
+                            std::process::exit(status.code().unwrap_or(101));
+                        }
+                        let v: Value = serde_json::from_str(&std::fs::read_to_string(&out).expect("slice summary")).expect("slice json");
+                        let b = &v["backends"][0];
+                        total.evaluations += b["evaluations"].as_u64().unwrap();
+                        total.violation_count += b["violation_count"].as_u64().unwrap();
+                        for x in v["violations"].as_array().unwrap().iter().take(6) {
+                            total.violations.push(x.clone());
+                        }
+                        for x in v["samples"].as_array().unwrap().iter().take(1) {
+                            total.samples.push(x.clone());
+                        }
+                        reopens += b["reopens"].as_u64().unwrap();
+                        fresh += b["fresh_process_views"].as_u64().unwrap_or(0);
+                        for (k, n) in b["by_kind"].as_object().unwrap() {
+                            *by_kind.entry(k.clone()).or_default() += n.as_u64().unwrap();
+                        }
+                        from = to;
+                        part += 1;
+                    }
+                    total.set("backend", "lmdb");
+                    total.set("reopens", reopens);
+                    total.set("fresh_process_views", fresh);
+                    total.set("by_kind", json!(by_kind));
+                    total.set("processes", part as u64);
+                    total
+                },
                 other => panic!("backend {other}"),
             }
         }));
@@ -403,7 +497,7 @@ pub async fn replay() {
     }
     total.set("edges", edges.len() as u64);
     total.set("backends", json!(all.iter().map(|s| json!({"backend": s["backend"], "evaluations": s["evaluations"],
-        "violation_count": s["violation_count"], "reopens": s["reopens"], "by_kind": s["by_kind"]})).collect::<Vec<_>>()));
+        "violation_count": s["violation_count"], "reopens": s["reopens"], "fresh_process_views": s["fresh_process_views"], "by_kind": s["by_kind"]})).collect::<Vec<_>>()));
     total.write(&out);
     let _ = std::fs::remove_dir_all(&dir);
 }
